@@ -460,3 +460,240 @@ def run_bfs(stmts, inputs, domains, opts, outputs, ref_init, ref_step, ref_expec
         res["status"] = "pass"
         res["outcome"] = "pass"
     return res
+
+
+# ------------------------------------------------------------------------------------------
+# orbit exploration of free-running circuits (DESIGN 2.4 c)
+# ------------------------------------------------------------------------------------------
+def find_computing(bp, name):
+    """Combinators whose description says they compute `name` (not anchors)."""
+    out = []
+    for e in bp["entities"]:
+        wt = observe.what(e)
+        if e["name"] in ("arithmetic-combinator", "decider-combinator") and wt.startswith(f"{name} ("):
+            out.append(e["entity_number"])
+    return out
+
+
+def run_orbit(stmts, inputs, valuations, opts, readers, cellkey, f, max_latency, cap=4096):
+    """readers: {name: "input"|"anchor"}: where the cell is observed (input side of the combinator
+    computing `name`, or the anchor of a bare read).  f(x, valuation) -> next value (reference).
+    Checks: exists L in 1..max_latency with r(t+L) = f(r(t)) for every explored t, per reader."""
+    try:
+        circ, inp, spec = compile_with_inputs(stmts, inputs, opts)
+    except harness.Rejected as ex:
+        return {"status": "rejected", "detail": str(ex)[:300], "outcome": "rejected:" + ex.kind}
+    if inp.problems or spec:
+        return {"status": "inconclusive", "outcome": "specialised", "detail": str(inp.problems)}
+    points = {}
+    for name, how in readers.items():
+        if how == "anchor":
+            v = observe.output_view(circ, name)
+            if v[0] != "anchor":
+                return {"status": "fail", "digest": sha(["noanchor", name]),
+                        "detail": {"src": lang.show_prog(stmts), "problem": f"no anchor for bare read {name}"}}
+            points[name] = (v[1], (1, 2))
+        else:
+            nums = find_computing(circ.bp, name)
+            if len(nums) != 1:
+                return {"status": "fail", "digest": sha(["noreader", name, len(nums)]),
+                        "detail": {"src": lang.show_prog(stmts), "problem": f"{len(nums)} combinators compute {name}"}}
+            points[name] = (nums[0], (1, 2))
+    bad = []
+    total_ticks = 0
+    closed = 0
+    lat = {}
+    distinct = set()
+    for val in valuations:
+        inp.set(val)
+        st = circ.initial_state()
+        seen = {}
+        traces = {n: [] for n in points}
+        t = 0
+        try:
+            while t < cap:
+                cs = canon_state(st)
+                if cs in seen:
+                    closed += 1
+                    break
+                seen[cs] = t
+                nets = circ.networks(st)
+                for n, (num, conns) in points.items():
+                    traces[n].append(circ.read(nets, num, conns).get(cellkey, 0))
+                st = circ.tick(st)
+                t += 1
+            # extend the trace by max_latency ticks beyond closure so every t has its successor
+            for _ in range(max_latency + 1):
+                nets = circ.networks(st)
+                for n, (num, conns) in points.items():
+                    traces[n].append(circ.read(nets, num, conns).get(cellkey, 0))
+                st = circ.tick(st)
+        except Unmodelled as ex:
+            return {"status": "inconclusive", "outcome": "unmodelled", "detail": str(ex)}
+        total_ticks += t
+        for n, tr in traces.items():
+            distinct.update(tr[:50])
+            okL = None
+            why = None
+            for L in range(1, max_latency + 1):
+                ok = True
+                for i in range(len(tr) - L):
+                    try:
+                        want = f(tr[i], val)
+                    except lang.RefUndefined:
+                        continue
+                    if tr[i + L] != want:
+                        ok = False
+                        if why is None or L == 1:
+                            why = (L, i, tr[i], tr[i + L], want)
+                        break
+                if ok:
+                    okL = L
+                    break
+            if okL is None:
+                bad.append((tuple(sorted(val.items())), n, tr[:12], why))
+            else:
+                lat.setdefault(n, set()).add(okL)
+    res = {"evaluations": len(valuations), "ticks": total_ticks, "states": total_ticks, "transitions": total_ticks,
+           "traces": len(valuations) * len(points), "orbits_closed": closed, "orbits": len(valuations),
+           "compiles": 2, "nontrivial": len(distinct) > 2,
+           "sample": {"src": lang.show_prog(stmts)[:500], "latency": {k: sorted(v) for k, v in lat.items()},
+                      "ticks": total_ticks}}
+    if bad:
+        res["status"] = "fail"
+        res["digest"] = sha([(b[0], b[1], b[2]) for b in bad])
+        res["detail"] = {"src": lang.show_prog(stmts), "opts": opts, "valuation": bad[0][0], "reader": bad[0][1],
+                         "trace_head": bad[0][2], "no_latency_fits(L,t,r(t),r(t+L),f(r(t)))": bad[0][3],
+                         "n_bad": len(bad)}
+        res["outcome"] = "fail"
+    else:
+        res["status"] = "pass"
+        res["outcome"] = "pass:" + json.dumps({k: sorted(v) for k, v in lat.items()})
+    return res
+
+
+# ------------------------------------------------------------------------------------------
+# differential oracle: two builds must be observationally equal (DESIGN 2.4 a + e)
+# ------------------------------------------------------------------------------------------
+POLES = ("small-electric-pole", "medium-electric-pole", "big-electric-pole", "substation")
+COMPILER_ENTS = ("arithmetic-combinator", "decider-combinator", "constant-combinator")
+
+
+def user_entities(bp):
+    """Entities the program placed: everything that carries no compiler description and is not a
+    pole.  Returns {(proto, tile_x, tile_y, index): entity_number}; index separates duplicates."""
+    from . import geometry
+    out = {}
+    cnt = {}
+    for e in sorted(bp["entities"], key=lambda e: e["entity_number"]):
+        if e.get("player_description") or e["name"] in POLES:
+            continue
+        tx, ty = geometry.top_left_tile(e)
+        k = (e["name"], tx, ty)
+        i = cnt.get(k, 0)
+        cnt[k] = i + 1
+        out[k + (i,)] = e["entity_number"]
+    return out
+
+
+def own_value(circ, st, view):
+    sigs = observe.read_output(circ, st, view)
+    if sigs is None:
+        return "unobservable"
+    label = view[2]
+    if label:
+        c = [v for k, v in sigs.items() if k[1] == label]
+        return c[0] if c else 0
+    vals = list(sigs.values())
+    if len(vals) > 1:
+        return "ambiguous:" + json.dumps(observe.by_name(sigs), sort_keys=True)
+    return vals[0] if vals else 0
+
+
+def _prep(side):
+    circ, inp, spec = compile_with_inputs(side["stmts"], side["inputs"], side["opts"])
+    return circ, inp, (inp.problems or (["specialised"] if spec else []))
+
+
+def run_differential(A, B, domains, pairs, mode="value", compare_entities=True, tolerate_reject="both"):
+    """A, B: {"stmts", "inputs", "opts", "fixed": {input: value}}.  pairs: [(nameA, nameB)].
+    Every valuation of the free inputs (domains) is applied to both builds; named outputs (and
+    user entities' conditions, matched by prototype+tile) must agree."""
+    rej = {}
+    built = {}
+    for tag, side in (("A", A), ("B", B)):
+        try:
+            built[tag] = _prep(side)
+        except harness.Rejected as ex:
+            rej[tag] = ex
+    srcs = {"A": lang.show_prog(A["stmts"]), "B": lang.show_prog(B["stmts"])}
+    if rej:
+        if len(rej) == 2:
+            return {"status": "rejected", "outcome": "both-rejected", "detail": str(rej["A"])[:200]}
+        tag = list(rej)[0]
+        return {"status": "fail", "digest": sha(["one-rejected", tag, rej[tag].kind]), "outcome": "one-rejected",
+                "detail": {"problem": f"only build {tag} is rejected: {str(rej[tag])[:300]}", "srcA": srcs["A"],
+                           "srcB": srcs["B"], "optsA": A["opts"], "optsB": B["opts"]}}
+    (ca, ia, pa), (cb, ib, pb) = built["A"], built["B"]
+    if pa or pb:
+        return {"status": "inconclusive", "outcome": "specialised", "detail": f"{pa} {pb}"}
+    va = {a: observe.output_view(ca, a) for a, _ in pairs}
+    vb = {b: observe.output_view(cb, b) for _, b in pairs}
+    ea, eb = user_entities(ca.bp), user_entities(cb.bp)
+    mism = []
+    if compare_entities and set(ea) != set(eb):
+        mism.append(("entities", None, sorted(set(ea) - set(eb)), sorted(set(eb) - set(ea))))
+    free = [i for i in domains]
+    vals = grid(domains, free)
+    n = 0
+    distinct = set()
+    for v in vals:
+        for side, inp in ((A, ia), (B, ib)):
+            full = dict(side.get("fixed") or {})
+            full.update({k: x for k, x in v.items() if k in side["inputs"]})
+            inp.set(full)
+        try:
+            sa, ka = ca.settle(ca.initial_state())
+            sb, kb = cb.settle(cb.initial_state())
+        except Unmodelled:
+            continue
+        n += 1
+        if (ka is None) != (kb is None):
+            mism.append(("settle", v, ka, kb))
+            continue
+        if ka is None:
+            continue
+        for a, b in pairs:
+            if mode == "signals":
+                oa = observe.read_output(ca, sa, va[a])
+                ob = observe.read_output(cb, sb, vb[b])
+                oa = observe.by_name(oa) if oa is not None else "unobservable"
+                ob = observe.by_name(ob) if ob is not None else "unobservable"
+            else:
+                oa, ob = own_value(ca, sa, va[a]), own_value(cb, sb, vb[b])
+            distinct.add((a, json.dumps(oa, sort_keys=True)))
+            if oa != ob:
+                mism.append((a, v, oa, ob))
+        if compare_entities:
+            for k in set(ea) & set(eb):
+                xa = ca.entity_condition(sa, ea[k])
+                xb = cb.entity_condition(sb, eb[k])
+                distinct.add((k, xa[0]))
+                if xa[0] != xb[0]:
+                    mism.append((list(k), v, xa, xb))
+    res = {"evaluations": n, "valuations": n, "compiles": 4, "nontrivial": len(distinct) > len(pairs),
+           "sample": {"srcA": srcs["A"][:300], "srcB": srcs["B"][:300], "valuations": len(vals)}}
+    if mism:
+        res["status"] = "fail"
+        res["digest"] = sha([(m[0], m[1], m[2], m[3]) for m in mism[:40]])
+        m = mism[0]
+        res["detail"] = {"srcA": srcs["A"], "srcB": srcs["B"], "optsA": A["opts"], "optsB": B["opts"],
+                         "first_mismatch": {"what": m[0], "inputs": m[1], "A": m[2], "B": m[3]}, "n_bad": len(mism)}
+        res["outcome"] = "fail"
+    elif n == 0:
+        res["status"] = "inconclusive"
+        res["outcome"] = "inconclusive"
+    else:
+        res["status"] = "pass"
+        res["outcome"] = "pass"
+    return res
